@@ -41,12 +41,12 @@ func vxH_C13_writeBack() {
 	kb := vxKeyBytes(K)
 	_, _ = kl, vl
 	for s := 0; s < steps; s++ {
-		kind := 1
-		if nbatches > 0 {
-			kind = vxChoose(5)
-		}
+		kind := vxChoose(5)
 		if kind == 0 {
-			break
+			if nbatches > 0 {
+				break
+			}
+			kind = 1
 		}
 		switch kind {
 		case 4:
